@@ -81,7 +81,15 @@ TS_PROGRAMS = [
     ('ts-disc-index', "type Sh = {kind: 'labels', [k: string]: string} | {kind: 'c', r: number};", 'Sh'),
     ('ts-tuple-rest-obj', 'type T = [string, ...{x: number}[]];', 'T'),
     ('ts-overlap', 'type O = {a: string} | {a: string, b: number} | {b?: number, c: {d: boolean}};', 'O'),
+    # a result of Exclude with two members where one declares a superset of the other's keys (both must survive: strict mode tells them apart)
+    ('ts-exclude-width', "type Created = {type: 'created', id: string, actor: string}; type CreatedLegacy = {type: 'created', id: string}; "
+                         "type Deleted = {type: 'deleted', id: string}; type Ping = {type: 'ping'}; type Ev = Created | CreatedLegacy | Deleted | Ping; "
+                         "type Stored = Exclude<Ev, Ping>;", 'Stored'),
 ]
+# what the type declares, read off the source by hand (NOT from the compiler's IR): used as the reference for "declared keys" where given
+HAND_SPECS = {
+    'ts-exclude-width': {'t': 'anyof', 'xs': [O({'type': C('created'), 'id': S, 'actor': S}), O({'type': C('created'), 'id': S}), O({'type': C('deleted'), 'id': S})]},
+}
 
 
 def random_spec(rng, depth=0):
@@ -489,6 +497,8 @@ def run(pid, tier, extra_jobs=None):
             paths, spec, defs = compile_program(name, src, parser)
         except Unsupported as e:
             continue
+        if name in HAND_SPECS:
+            spec, defs = HAND_SPECS[name], {}
         j = make_job(name, spec, defs, pid, tier, module=paths['inst'], parser=parser, hostile=(tier != 'quick'))
         plain_modules[name] = paths['plain']
         jobs.append(j)
